@@ -7,6 +7,7 @@ import StepModel.GenCxxCalls
 import StepModel.RegistryModel
 import StepModel.Accessors
 import StepModel.AccessorKinds
+import StepModel.SelectCanBeLemmas
 import StepModel.GenCxxRulesLemmas
 import StepModel.GenCxxAgree
 import StepModel.GenCxxDedup
@@ -1385,6 +1386,41 @@ theorem C02_accessor_null_entity_witness {V : Type} (fresh : V) (c : Option V) :
 theorem C02_accessor_null_aggregate_witness {V : Type} (fresh : V) (c : Option V) :
     setter fresh .aggregate c none = .crash := by
   cases c <;> rfl
+
+/-! ## which entities a SELECT type can hold -/
+
+/-- Tie: `SelectTypeDescriptor::CanBe( const TypeDescriptor * )` asks every element whether it can be the argument — an element
+    that is itself a select like any other (regenerated from selectTypeDescriptor.cc; with member selects only compared for
+    identity — seeded change C02-e2 — this does not elaborate). -/
+theorem C02_select_canbe_asks_every_element : selectCanBeRecurses = true := rfl
+
+/-- **`CanBe` is the reflexive-transitive closure of select membership**: for every schema whose selects are not nested in
+    themselves (`SelRank`), every select type `t` — plain or renamed — and every entity `e`: the dictionary query
+    `t->CanBe( e's descriptor )` answers yes iff `e` is, or is a subtype of, a member entity of `t` or of a member select of `t` at
+    ANY nesting depth (`Spec.CanHold`, induction on the nesting depth).  The generated `AssignEntity()` of a select class asks this
+    query of its member selects, so an attribute of the outermost type accepts exactly these entities (checked on the real classes:
+    `CANBE` lines of the dump for every (select, entity) pair, `SELENT` round trips). -/
+theorem C02_select_canbe_is_closure {s : Schema} {srank : String → Nat} (sr : Spec.SelRank s srank) (t e : String) :
+    canBeTd s (selectFuel s) t e = true ↔ Spec.CanHold s t e := by
+  constructor
+  · exact canBeTd_sound s (selectFuel s) t e
+  · intro h
+    exact canBeTd_complete sr C02_select_canbe_asks_every_element h (selectFuel s) (sr.bound t (canHold_isSome h))
+
+/-- three selects deep, with a subtype and a renamed select on the way: the outermost can hold the innermost member's subtype;
+    by name only the member entities themselves; `CanBeSet` does not look into the renamed select -/
+example :
+    let s : Schema :=
+      { name := "n",
+        types := [{ name := "inner", body := .select [.entity "b", .entity "c"] },
+                  { name := "mid", body := .select [.named "inner", .entity "a"] },
+                  { name := "mid2", body := .alias (.named "mid") },
+                  { name := "outer", body := .select [.named "mid2", .entity "g"] }],
+        entities := [{ name := "a" }, { name := "b" }, { name := "c" }, { name := "g" }, { name := "bsub", supers := ["b"] }] }
+    canBeTd s (selectFuel s) "outer" "bsub" = true ∧ canBeName s (selectFuel s) "outer" "bsub" = false ∧
+    canBeName s (selectFuel s) "outer" "c" = true ∧ canBeSet s (selectFuel s) "outer" "c" = false ∧
+    canBeSet s (selectFuel s) "mid" "c" = true := by
+  decide
 
 /-! ## WHERE / UNIQUE rules and EXPRESS text in emitted string literals -/
 
